@@ -910,37 +910,62 @@ def gen_e2e(r, k):
     return {"id": "e2e%d" % k, "nd": nd, "vars": vars_, "steps": steps, "full": r.choice([1, 2, 4]), "apply": r.random() < 0.5,
             "ext": ext, "freq": freq, "same": same, "incl": incl, "fscale": fscale,
             # a custom `grid { ... }` block in the abf bias: half the width, one bin cut off at both ends (non-periodic variables)
-            "gridblock": (not ext) and all(not v["per"] for v in vars_) and r.random() < 0.35}
+            "gridblock": (not ext) and all(not v["per"] for v in vars_) and r.random() < 0.35,
+            # entry points that rebuild or use the divergence: state file (text/binary) between two runs, inputPrefix,
+            # projected ABF (integration at every step)
+            "flow": "plain" if (freq or ext) else r.choice(["plain", "plain", "restart-text", "restart-binary", "inputprefix", "pabf" if nd >= 2 else "plain"])}
 
 
 def e2e_scenario(c):
     nd = c["nd"]
-    L = ["natoms %d" % nd, "samestep %d" % (1 if c.get("same", True) else 0), "includecv %d" % (1 if c.get("incl", True) else 0),
-         "temperature 300", "dt 1", "prefix %s" % c["id"]]
+    flow = c.get("flow", "plain")
+    def config(extra_abf=()):
+        L = ["config EOF"]
+        for d, v in enumerate(c["vars"]):
+            L += ["colvar {", "  name v%d" % d, "  lowerBoundary %r" % v["lo"], "  upperBoundary %r" % v["hi"], "  width %r" % v["w"]]
+            if c.get("ext"):
+                L += ["  extendedLagrangian on", "  extendedFluctuation %r" % (0.5 * v["w"]), "  extendedTimeConstant 20", "  extendedLangevinDamping 0"]
+            L += ["  distanceZ {", "    main { atomNumbers %d }" % (d + 1), "    ref { dummyAtom (0,0,0) }", "    axis (0,0,1)",
+                  "    oneSiteTotalForce on"]
+            if v["per"]:
+                L += ["    period %r" % (v["hi"] - v["lo"]), "    wrapAround %r" % (0.5 * (v["hi"] + v["lo"]))]
+            L += ["  }", "}"]
+        L += ["abf {", "  name a", "  colvars " + " ".join("v%d" % d for d in range(nd)), "  fullSamples %d" % c["full"],
+              "  applyBias %s" % ("on" if c["apply"] else "off")] + list(extra_abf)
+        if c.get("gridblock"):
+            L += ["  grid {", "    widths " + " ".join(repr(v["w"] / 2) for v in c["vars"]),
+                  "    lower_boundaries " + " ".join(repr(v["lo"] + v["w"] / 2) for v in c["vars"]),
+                  "    upper_boundaries " + " ".join(repr(v["hi"] - v["w"] / 2) for v in c["vars"]), "  }"]
+        return L + ["}", "EOF", "show cv 0 energy 0 bias 0 atomf 0"]
+    def steps(lst):
+        L = []
+        for z, e in lst:
+            for d in range(nd):
+                L.append("pos %d 0 0 %s" % (d + 1, V.hexf(z[d])))
+                L.append("eforce %d 0 0 %s" % (d + 1, V.hexf(e[d])))
+            L.append("step")
+        return L
+    head = ["natoms %d" % nd, "samestep %d" % (1 if c.get("same", True) else 0), "includecv %d" % (1 if c.get("incl", True) else 0),
+            "temperature 300", "dt 1"]
     if c.get("freq"):
-        L += ["restartfreq 4"]
-    L += ["new", "config EOF"]
-    for d, v in enumerate(c["vars"]):
-        L += ["colvar {", "  name v%d" % d, "  lowerBoundary %r" % v["lo"], "  upperBoundary %r" % v["hi"], "  width %r" % v["w"]]
-        if c.get("ext"):
-            L += ["  extendedLagrangian on", "  extendedFluctuation %r" % (0.5 * v["w"]), "  extendedTimeConstant 20", "  extendedLangevinDamping 0"]
-        L += ["  distanceZ {", "    main { atomNumbers %d }" % (d + 1), "    ref { dummyAtom (0,0,0) }", "    axis (0,0,1)",
-              "    oneSiteTotalForce on"]
-        if v["per"]:
-            L += ["    period %r" % (v["hi"] - v["lo"]), "    wrapAround %r" % (0.5 * (v["hi"] + v["lo"]))]
-        L += ["  }", "}"]
-    L += ["abf {", "  name a", "  colvars " + " ".join("v%d" % d for d in range(nd)), "  fullSamples %d" % c["full"],
-          "  applyBias %s" % ("on" if c["apply"] else "off")]
-    if c.get("gridblock"):
-        L += ["  grid {", "    widths " + " ".join(repr(v["w"] / 2) for v in c["vars"]),
-              "    lower_boundaries " + " ".join(repr(v["lo"] + v["w"] / 2) for v in c["vars"]),
-              "    upper_boundaries " + " ".join(repr(v["hi"] - v["w"] / 2) for v in c["vars"]), "  }"]
-    L += ["}", "EOF", "show cv 0 energy 0 bias 0 atomf 0"]
-    for z, e in c["steps"]:
-        for d in range(nd):
-            L.append("pos %d 0 0 %s" % (d + 1, V.hexf(z[d])))
-            L.append("eforce %d 0 0 %s" % (d + 1, V.hexf(e[d])))
-        L.append("step")
+        head += ["restartfreq 4"]
+    half = len(c["steps"]) // 2
+    if flow in ("restart-text", "restart-binary"):
+        # a run, a state file, a fresh module that loads it (the divergence must be rebuilt from the loaded grids), a second run
+        L = head + ["prefix %s" % c["id"], "new"] + config() + steps(c["steps"][:half])
+        L += ["save %s %s.st" % ("binary" if flow == "restart-binary" else "text", c["id"]), "new"] + config() + ["load %s.st" % c["id"]]
+        # (the step at which the state was saved is repeated after the load with the same coordinates, as an engine does:
+        #  Colvars compares the recomputed values with the saved ones)
+        L += steps(c["steps"][max(half - 1, 0):])
+    elif flow == "inputprefix":
+        # a first run writes <id>a.count/.grad; a second bias starts from them through inputPrefix and goes on
+        L = head + ["prefix %sa" % c["id"], "new"] + config() + steps(c["steps"][:half]) + ["postrun"]
+        L += ["prefix %s" % c["id"], "new"] + config(["  inputPrefix %sa" % c["id"]]) + steps(c["steps"][half:])
+    elif flow == "pabf":
+        # projected ABF: the surface is integrated at every step and the bias force is its finite-difference gradient
+        L = head + ["prefix %s" % c["id"], "new"] + config(["  pABFintegrateFreq 1"]) + steps(c["steps"])
+    else:
+        L = head + ["prefix %s" % c["id"], "new"] + config() + steps(c["steps"])
     if not c.get("freq"):
         L.append("postrun")
     if nd >= 2:
@@ -979,6 +1004,7 @@ def e2e(run, r, quick, exe=None, model=None):
         run.dist("e2e:nd=%d,per=%s" % (c["nd"], "".join(str(int(v["per"])) for v in c["vars"])))
         run.dist("e2e:forces=%s" % ("same-step" if c.get("same", True) else "lagged,includecv=%d" % c.get("incl", 1)))
         run.dist("e2e:force-scale=%g" % c.get("fscale", 1.0))
+        run.dist("e2e:flow=%s" % c.get("flow", "plain"))
         if degenerate:
             run.dist("e2e:single-point-periodic-dimension")
             if "CONFIG err=ok" in o:
@@ -987,7 +1013,7 @@ def e2e(run, r, quick, exe=None, model=None):
             elif "CONFIG err=input" not in o:
                 run.violation("e2e:run", "unexpected outcome for the single-bin periodic configuration: %s" % o[-300:], rep)
             continue
-        if rc != 0 or ("POSTRUN err=ok" not in o and not c.get("freq")) or "CONFIG err=ok" not in o:
+        if rc != 0 or ("POSTRUN err=ok" not in o and not c.get("freq")) or "CONFIG err=ok" not in o or "err=input" in o or "err=file" in o or "LOAD err=error" in o:
             run.violation("e2e:run", "the ABF scenario did not run to the end (rc=%d): %s" % (rc, (o + e)[-300:]), rep)
             continue
         dc = [l for l in o.splitlines() if l.startswith("DIVCHECK ")]
